@@ -559,7 +559,7 @@ func vfC03Publishes(r *vfRun) {
 	// (a node that does not sign can still be handed a key per publication, and then produces a signed message:
 	// under a strict no-signing policy its own receivers would refuse that, so the publication has to be refused)
 	for _, pa := range []pm{{StrictSign, false}, {LaxSign, false}, {StrictNoSign, false}, {StrictNoSign, true}, {LaxNoSign, false}, {LaxNoSign, true}} {
-		for _, mode := range []string{"default", "custom-ed25519", "custom-rsa", "perpublish-secp256k1", "perpublish-ecdsa"} {
+		for _, mode := range []string{"default", "custom-ed25519", "custom-rsa", "perpublish-secp256k1", "perpublish-ecdsa", "perpublish-mismatch"} {
 			policy, anon, mode := pa.policy, pa.anon, mode
 			if anon && strings.HasPrefix(mode, "custom-") {
 				continue // WithNoAuthor and WithMessageAuthor exclude each other
@@ -594,7 +594,20 @@ func vfC03Publishes(r *vfRun) {
 				synctest.Wait()
 				tp, _ := n.ps.Join("t")
 				var popts []PubOpt
-				if strings.HasPrefix(mode, "perpublish-") {
+				if mode == "perpublish-mismatch" {
+					// a per-publication key with a peer ID it does not belong to: whatever Publish answers, nothing that
+					// fails to verify may reach the wire or the local subscription (the unchanged tree refuses it)
+					var kp, ki *vfKeyed
+					for _, k := range keys {
+						if k.name == "secp256k1" {
+							kp = k
+						}
+						if k.name == "ed25519" {
+							ki = k
+						}
+					}
+					popts = append(popts, WithSecretKeyAndPeerId(kp.priv, ki.id))
+				} else if strings.HasPrefix(mode, "perpublish-") {
 					for _, k := range keys {
 						if k.name == mode[11:] {
 							popts = append(popts, WithSecretKeyAndPeerId(k.priv, k.id))
@@ -609,7 +622,7 @@ func vfC03Publishes(r *vfRun) {
 				f.take()
 				cs := map[string]any{"policy": policy, "anonymous": anon, "mode": mode}
 				pubErr := tp.Publish(context.Background(), []byte("hello"), popts...)
-				if pubErr != nil && policy&msgSigning != 0 {
+				if pubErr != nil && policy&msgSigning != 0 && mode != "perpublish-mismatch" {
 					r.violation("c03:publish-error", fmt.Sprintf("policy=%d mode=%s: Publish failed: %v", policy, mode, pubErr), cs)
 				}
 				synctest.Wait()
